@@ -27,7 +27,7 @@ META = {
              'kind, filter, expected outcome, variant).'),
     'exhaustive_part': 'roElementAction operation x target shape x source shape product is complete (315 shapes)',
     'workers': {'quick': 6, 'thorough': 12},
-    'watchdog': {'quick': 300, 'thorough': 1800},
+    'watchdog': {'quick': 600, 'thorough': 3600},
     'configs': [
         {'name': 'default', 'pyflags': ()},
         {'name': 'Werror', 'pyflags': ('-W', 'error'), 'workers': 4},
